@@ -139,9 +139,31 @@ static int mode_files(int cases)
     attempt("non-numeric", "abc\n", good_t, true, true);
     attempt("non-monotone", "0.1\n0.5\n0.4\n1.3\n", good_t, true, true);
     attempt("no-antipode", "0.1\n0.5\n1.3\n", "0\n1.0\n3.1415926535897931\n6.2831853071795862\n", true, true);
+    // equal neighbours are not "strictly increasing" either: a zero spacing divides by zero in every stencil
+    attempt("duplicate-radius", "0.1\n0.5\n0.5\n1.3\n", good_t, true, true);
+    attempt("duplicate-first-radius", "0.1\n0.1\n0.5\n1.3\n", good_t, true, true);
+    attempt("duplicate-last-radius", "0.1\n0.5\n1.3\n1.3\n", good_t, true, true);
+    attempt("duplicate-angle", "0.1\n0.5\n1.3\n", "0\n1.5707963267948966\n1.5707963267948966\n3.1415926535897931\n4.7123889803846897\n4.7123889803846897\n6.2831853071795862\n", true, true);
     attempt("good", "0.1\n0.5\n1.3\n", good_t, true, true);
     attempt("good-two-radii", "0.1\n1.3\n", good_t, true, true); // the smallest grid the constructor accepts (finding F13)
     unlink(fr.c_str()); unlink(ft.c_str()); rmdir(dir);
+    // the same through the coordinate-vector constructor, and through the parametric one on an annulus so thin that neighbouring
+    // nodes coincide in double (Rmax - R0 = 1e-12 at R0 = 1 leaves about 4500 distinct doubles for 8193 nodes)
+    auto attempt_vec = [&](const char* what, std::vector<double> r, std::vector<double> t) {
+        try { PolarGrid g(r, t); printf("BADFILE %s accepted nr=%d nt=%d\n", what, g.nr(), g.ntheta()); }
+        catch (const std::exception& e) { printf("BADFILE %s throw\n", what); }
+    };
+    const double pi = 3.14159265358979323846;
+    attempt_vec("vector-duplicate-radius", {0.1, 0.5, 0.5, 1.3}, {0, pi / 2, pi, 3 * pi / 2, 2 * pi});
+    attempt_vec("vector-duplicate-angle", {0.1, 0.5, 1.3}, {0, pi / 2, pi / 2, pi, 3 * pi / 2, 3 * pi / 2, 2 * pi});
+    attempt_vec("vector-good", {0.1, 0.5, 1.3}, {0, pi / 2, pi, 3 * pi / 2, 2 * pi});
+    try {
+        PolarGrid g(1.0, 1.0 + 1e-12, 13, -1, 0.66, 0, 0);
+        bool strict = true;
+        for (int i = 0; i + 1 < g.nr(); i++) if (!(g.radius(i) < g.radius(i + 1))) strict = false;
+        printf("BADFILE thin-annulus-8193-radii %s nr=%d\n", strict ? "throw-not-needed" : "accepted", g.nr());
+    }
+    catch (const std::exception& e) { printf("BADFILE thin-annulus-8193-radii throw\n"); }
     printf("end\n");
     return 0;
 }
